@@ -871,6 +871,25 @@ fn rank_relational<const N: usize>() -> (bool, bool) {
     let mut i = 0usize;
     while i < N {
         assert!(same_f64(ra[i], rb[i]), "vrank: depends on the order relation only (invariant under increasing maps)");
+        // "the average ranks" of the Spearman clause: 2 * rank = 2 * #smaller + #equal + 1 (added after seeded change C20-m3)
+        match a[i] {
+            None => assert!(ra[i] != ra[i], "vrank: a null element has a null rank"),
+            Some(x) => {
+                let (mut less, mut eq) = (0usize, 0usize);
+                let mut j = 0usize;
+                while j < N {
+                    if let Some(y) = a[j] {
+                        if y < x {
+                            less += 1;
+                        } else if y == x {
+                            eq += 1;
+                        }
+                    }
+                    j += 1;
+                }
+                assert!(ra[i] * 2.0 == (2 * less + eq + 1) as f64, "vrank: the rank is the average rank of the tie group");
+            },
+        }
         i += 1;
     }
     (tie, null)
